@@ -109,6 +109,9 @@ def build(shape, focus, assign, ranks, cfg, ctx='alone', opts=None, tag=''):
             salt += 1 + (rk or 0) % 3
             o = opts or {}
             own = field_meta(ch, rk, carrier, cfg, salt, o.get('order'), o.get('comma', False), o.get('sp'))
+            if own is None and o.get('explicit') and vi == focus:
+                # a compared field that says so: `Trait = true`, `Trait(ignore = false)`, `Trait(ignore(false))`
+                own = ['%s = true', '%s(ignore = false)', '%s(ignore(false))'][salt % 3] % carrier
             t.append('I' if ch in 'ix' else sc)
             a.append(place(own, 'Hash(ignore)', ctx))
             if probe12 and vi == focus and fi not in probe12 and ch not in 'ix':
@@ -192,6 +195,18 @@ def generate(tier):
                             if tier == 'quick' and n >= 2 and cfg in ('O',):
                                 continue     # Ord with a hand-written PartialOrd runs the same handler as OP_O; kept for n = 1 and in the thorough tier
                             cases.append(build(shape, focus, assign, ranks, cfg))
+    # compared fields that carry the explicit "not ignored" spellings
+    for n in (1, 2, 3):
+        for style in 'tn':
+            for shape, focus in placements(S.Fields(style, n), tier):
+                for assign in itertools.product('ci', repeat=n):
+                    assign = ''.join(assign)
+                    if 'c' not in assign:
+                        continue
+                    for cfg in CFGS:
+                        for k in range(3):
+                            cases.append(build(shape, focus, assign, (None,) * n, cfg, opts={'explicit': True}, tag='|explicit%d' % k) if k == 0 else None)
+    cases = [c for c in cases if c is not None]
     # wide elements: 5 fields, at most two fields deviating in (status, rank) from the plain derive; focus variant at index 3 of 5
     U, T1 = S.Fields('u'), S.Fields('t', 1)
     for style in 'tn':
